@@ -492,6 +492,9 @@ def _run_scenario(case, out):
     elif sc in ("offset-scale", "redeclared"):
         _run_user_units(case, out, sc)
         return
+    elif sc == "same-base-units":
+        _run_same_base_units(case, out)
+        return
     else:
         out.invalid = True
         return
@@ -535,6 +538,63 @@ def _run_scenario(case, out):
     out.classes.append(f"scenario:{sc}")
     out.nontrivial = f"scenario|{sc}"
     out.sample = {"scenario": sc}
+
+
+def _run_same_base_units(case, out):
+    """reference and quantity are compound units of one dimension made of the SAME base units
+    with different exponents (m^2/(ft.s) against ft^2/(m.s); W.s/h against W.h/s).  Such pairs lie
+    outside the planner's sound domain, so the conversion is first checked against the size
+    oracle; where it is right, the level must follow the definition."""
+    from ..sizes import Sizes
+
+    m = W.m
+    U = m.Unit._by_name
+    sz = Sizes(W, m.One)
+    logs = {"decibel": m.Decibel, "bel": m.Bel, "neper": m.Neper, "octave": m.Octave}
+    meter, foot, second, hour, watt, inch = (U[n] for n in ("meter", "foot", "second", "hour", "watt", "inch"))
+    pairs = [
+        (meter**2 / (foot * second), foot**2 / (meter * second), 2),
+        (foot**2 / (meter * second), meter**2 / (foot * second), 2),
+        (inch**2 / (foot * second), foot**2 / (inch * second), 2),
+        (watt * second / hour, watt * hour / second, 1),
+        (watt * hour / second, watt * second / hour, 1),
+    ]
+    n = 0
+    for qu, ru, k in pairs:
+        sq, sr = sz.unit_size(qu), sz.unit_size(ru)
+        if sq is None or sr is None:
+            continue
+        for qmag, rmag in ((3, 2), (0.5, 10), (250.0, 1)):
+            try:
+                conv = float((qmag * qu).in_unit(ru).magnitude)
+                sound = abs(conv - float(Fraction(qmag) * sq / sr)) <= 1e-9 * abs(conv)
+            except Exception:  # noqa -- the planner's weaknesses outside D_ok are C04/C07's findings
+                sound = False
+            if not sound:
+                out.classes.append("same-base-units:conversion-unsound-here")
+                continue
+            for lname, b, pv in SCENARIO_LOGS:
+                what = f"{qmag} {qu} re {rmag} {ru} in {lname}"
+                try:
+                    lu = logs[lname][rmag * ru]
+                    want = (k / pv) * math.log(float(Fraction(qmag) * sq / (Fraction(rmag) * sr))) / math.log(b)
+                    lvl = lu.level(qmag * qu)
+                    got = float(lvl.magnitude)
+                    tol = 1e-9 * max(abs(want), (k / pv) / abs(math.log(b)))
+                    if abs(got - want) > tol:
+                        out.fail("C18:scenario:same-base-units:q2l", f"{what}: level is {got!r}, definition gives {want!r}")
+                    else:
+                        back = lvl.quantify()
+                        sb = sz.unit_size(back.unit)
+                        if sb is not None and abs(float(Fraction(back.magnitude) * sb) - float(Fraction(qmag) * sq)) > 1e-9 * abs(float(Fraction(qmag) * sq)):
+                            out.fail("C18:scenario:same-base-units:l2q", f"{what}: the level quantifies to {back!r}, not the quantity it was taken of")
+                    n += 1
+                except Exception as e:  # noqa
+                    out.fail(f"C18:scenario:same-base-units:raises:{type(e).__name__}@{core.innermost_frame(e)}", f"{what}: {type(e).__name__}: {e}")
+    out.classes.append("scenario:same-base-units")
+    if n:
+        out.nontrivial = "scenario|same-base-units"
+        out.sample = {"scenario": "same-base-units", "levels_checked": n}
 
 
 def _run_user_units(case, out, sc):
@@ -621,6 +681,7 @@ def enumerate_cases(tier):
     yield {"sc": "after-define"}
     yield {"sc": "offset-scale"}
     yield {"sc": "redeclared"}
+    yield {"sc": "same-base-units"}
     for fam in ENUM_FAMILIES:
         for cls in sorted(TERMS):
             sp = TERMS[cls]
